@@ -197,6 +197,9 @@ MUTANTS = [
     ('C16', 'premade_lib.py', '  for feature_config in model_config.feature_configs:\n    for regularizer_config in feature_config.regularizer_configs or []:\n      if not regularizer_config.name.startswith(\n          _INPUT_CALIB_REGULARIZER_PREFIX):\n        raise ValueError(\n            \'KroneckerFactoredLattice',
      '  for feature_config in model_config.feature_configs:\n    for regularizer_config in model_config.regularizer_configs or []:\n      if not regularizer_config.name.startswith(\n          _INPUT_CALIB_REGULARIZER_PREFIX):\n        raise ValueError(\n            \'KroneckerFactoredLattice', 'X9',
      'per-feature regularizer check reads the model-level list'),
+    ('C04', 'pwl_calibration_lib.py', '  bias = tf.minimum(bias, output_max)\n\n  delta = output_max - bias\n',
+     '  delta = output_max - bias\n  bias = tf.minimum(bias, output_max)\n', 'X5',
+     'head-room computed from the unclipped bias'),
     # ---- neutral variants (must stay silent)
     ('C08', 'lattice_lib.py', '    average = (layers[i] + layers[i + 1]) / 2.0', '    average = 0.5 * (layers[i] + layers[i + 1])',
      None, 'N: average written as 0.5 * sum'),
